@@ -517,7 +517,7 @@ pub fn unary(kind: &str, c: Node, variant: usize) -> Node {
         "clip_amp" => Node::ClipAmp(b, [4, 2, 1, 8, 32][variant % 5]),
         "inspect" => Node::Inspect(b),
         // also delays far beyond anything that will be drained (64-bit hosts): all silence, no pulls
-        "delay" => Node::Delay(b, [0usize, 1, 2, 5, 3, 7, 11, 1 << 32, (1 << 32) + 1, usize::MAX][variant % 10]),
+        "delay" => Node::Delay(b, [0usize, 1, 2, 5, 3, 7, 11, (1u64 << 32) as usize, ((1u64 << 32) + 1) as usize, usize::MAX][variant % 10]),
         _ => panic!("unknown unary kind {}", kind),
     }
 }
